@@ -1387,6 +1387,9 @@ _THRESH = (0.6, 0.4, 0.2, 0.4, None, 0.4, None)
 # the same forest with thresholds that do NOT widen towards the root (the property allows any thresholds): bravo is wider than its
 # parent alpha, so a genome of charlie at 0.4 / 0.5 matches bravo although it is beyond alpha's threshold
 _THRESH_NM = (0.3, 0.5, 0.2, 0.4, None, 0.4, None)
+# ... and with a ZERO threshold (a single-genome species: only an identical genome matches it; a threshold of 0.0 is a threshold - seeded C10f)
+_THRESH_Z = (0.6, 0.4, 0.0, 0.4, None, 0.4, None)
+_LETTERS_Z = ((2, 0.0), (2, 0.1), (1, 0.1), (3, 0.1), (0, 0.05), (5, 0.1), (6, 0.1))
 # (genome's taxon, distance): every way a genome can match in this forest - its own taxon (below / exactly on the threshold), an
 # ancestor one or two levels up, nothing (beyond every threshold / lineage without thresholds)
 # ... and a genome filed directly under the inner taxon alpha, nearer than anything else: the consensus of a conflict can itself be a
@@ -1652,6 +1655,12 @@ def check(ctx):
     rep.rule('N3', 'others / no-common-ancestor / empty exits / input consumed once (finite-domain evaluation)')
     rep.rule('N4', 'strict classify: prediction, no-match exit, warning exactly under a non-empty conflicting set, failure exactly without common ancestor (finite-domain evaluation)')
     rep.rule('N5', 'primary match: none without consensus; first nearest genome at or below the consensus, same index (finite-domain evaluation)')
+    # the outcome is a function of the database and the query at hand: the per-row computation (get_result_item -> classify -> lineage
+    # walks) writes nothing outside its own locals and the modules keep no mutable state (a memo keyed by row ids would carry one
+    # database's thresholds into the next) - C08-A6 re-evaluated under this property, before the bounded evaluation
+    from . import c08 as _c08
+    rep.rule('A6', 'C08-A6 re-evaluated: effect analysis over the per-row call-graph closure: no write outside locals; no module-level mutable state')
+    _c08.check_independence(ctx)
     rep.rule('N6', 'gambit query --strict: the flag becomes QueryParams.classify_strict, that object is what query() / query_parse() get, query_parse() forwards it; query() -> classify(strict=params.classify_strict) is C03-D6 re-evaluated')
     from ..clirules import check_query_cli_params
     check_query_cli_params(rep, ctx.model, 'N6')
@@ -1667,6 +1676,9 @@ def check(ctx):
     eval_classify(ctx, ev, dom, sc)
     eval_find_matches(ctx, ev, dom, sc, thresh=_THRESH_NM, tag=' (thresholds not monotone)')
     eval_classify(ctx, ev, dom, sc, thresh=_THRESH_NM, tag=' (thresholds not monotone)')
+    scz = [c for k in (1, 2, 3) for c in itertools.product(_LETTERS_Z, repeat=k)]
+    eval_find_matches(ctx, ev, dom, scz, thresh=_THRESH_Z, tag=' (a zero threshold)')
+    eval_classify(ctx, ev, dom, scz, thresh=_THRESH_Z, tag=' (a zero threshold)')
     check_match_guards(ctx)
     rep.info['finite_domain_evaluations'] = ev.evaluations
     if not rep.violations:
